@@ -27,7 +27,7 @@ def C13_inv_reopen_full : Prop :=
 /-- the full statement of the boundedness clause -/
 def C13_bounded_full : Prop :=
   ∀ (po : Addr → Nat) (s : State) (pyr : Addr → Option (List (Addr × Nat))) (n : Nat) (v : List Addr),
-    Reachable po s → (gcEvict s pyr).out = .gcDone n true v →
+    Reachable po s → s.runTarget = gcTarget s.capacity → (gcEvict s pyr).out = .gcDone n true v →
     gcSum (gcEvict s pyr).st.db.gc ≤ s.capacity
 
 /-! ## what holds -/
@@ -74,11 +74,13 @@ theorem applyLog_gcSizePut_last (db : Db) (l : List DW) (b : List Write) (n : Na
   simp [applyDW, applyBatch_append, applyW]
 
 /-- `bounded_after_quiescence`, counter part (full): a collection run that reports `done` leaves
-`gcSize ≤ gcTarget capacity ≤ capacity`, for every state, pyramid script and racing history. -/
+`gcSize ≤ gcTarget capacity ≤ capacity`, for every state, pyramid script and racing history (`ht`: the
+capacity was not changed while the run was in progress — `gcSelect` stores `gcTarget capacity`). -/
 theorem C13_bounded_gcSize (s : State) (pyr : Addr → Option (List (Addr × Nat))) (n : Nat) (v : List Addr)
-    (h : (gcEvict s pyr).out = .gcDone n true v) :
+    (h : (gcEvict s pyr).out = .gcDone n true v) (ht : s.runTarget = gcTarget s.capacity) :
     (gcEvict s pyr).st.db.gcSize ≤ gcTarget s.capacity ∧ gcTarget s.capacity ≤ s.capacity := by
   refine ⟨?_, by unfold gcTarget; omega⟩
+  rw [← ht]
   unfold gcEvict at h ⊢
   by_cases hr : s.gcRunning
   · simp only [hr, Bool.not_true, Bool.false_eq_true, if_false] at h ⊢
@@ -93,9 +95,9 @@ theorem C13_bounded_gcSize (s : State) (pyr : Addr → Option (List (Addr × Nat
 total Σ GCounter is within the capacity.  Missing for the full clause: the runs that break the
 invariant (`C13_bounded_counterexample`). -/
 theorem C13_bounded_after_quiescence_partial (s : State) (pyr : Addr → Option (List (Addr × Nat)))
-    (n : Nat) (v : List Addr) (h : (gcEvict s pyr).out = .gcDone n true v)
+    (n : Nat) (v : List Addr) (h : (gcEvict s pyr).out = .gcDone n true v) (ht : s.runTarget = gcTarget s.capacity)
     (hinv : Inv (gcEvict s pyr).st) : gcSum (gcEvict s pyr).st.db.gc ≤ s.capacity := by
-  have := C13_bounded_gcSize s pyr n v h
+  have := C13_bounded_gcSize s pyr n v h ht
   unfold Inv at hinv
   omega
 
@@ -196,7 +198,7 @@ theorem C13_bounded_counterexample : ¬ C13_bounded_full := by
   intro h
   have hr : Reachable po0 (runOps sFile [.put .request (some 5) [(5, [])], .setCapacity 2, .gcSelect,
       .get .request (some 1) 2, .get .request (some 5) 5]) := reachable_runOps _ _ (reachable_runOps _ _ (Reachable.init _))
-  have := h po0 _ (pyrFun pyrTrue) 3 [1] hr (by decide)
+  have := h po0 _ (pyrFun pyrTrue) 3 [1] hr (by decide) (by decide)
   revert this
   decide
 
